@@ -72,6 +72,7 @@ PLANS = {
         "gen": [
             {"name": "chain1", "module": "System", "constants": {"ChainLen": "1", "Walkers": "0"}, "invariants": ["GenInv"],
              "tier_constants": {"quick": {"StartSet": '"tiny"'}, "thorough": {"StartSet": '"small"'}}},
+            {"name": "text2", "module": "System", "constants": {"ChainLen": "2", "Walkers": "0", "StartSet": '"text2"'}, "invariants": ["GenInv"]},
             {"name": "walks", "module": "System", "constants": {"StartSet": '"full"'}, "invariants": ["GenInv"],
              "tier_constants": {"quick": {"ChainLen": "6", "Walkers": "1500"}, "thorough": {"ChainLen": "10", "Walkers": "8000"}}},
         ],
@@ -105,6 +106,7 @@ PLANS = {
             {"name": "filter", "module": "GenPath", "constants": {"Family": '"filter"', "MaxSteps": "0"}},
             {"name": "pred", "module": "GenPath", "constants": {"Family": '"pred"', "MaxSteps": "0"}},
             {"name": "pre", "module": "GenPath", "constants": {"Family": '"pre"', "MaxSteps": "0"}},
+            {"name": "text", "module": "GenPath", "constants": {"Family": '"text"', "MaxSteps": "0"}},
         ],
         "bounds": "the C08 (document, path) universe: for each, all four modes through the Selector API, the three convenience functions, exists/path_exists, predicate_match/path_match, into empty and pre-filled buffers; data and offsets compared with the specification's ModeItems",
     },
@@ -132,7 +134,8 @@ PLANS = {
         "drive": [{"kind": "repr", "count": {"quick": 3600, "thorough": 40000}}, {"kind": "serde_repr", "count": {"quick": 1500, "thorough": 16000}}, {"kind": "pairs_repr", "count": {"quick": 2400, "thorough": 30000}, "ops": ["compare", "contains", "concat", "array_intersection", "array_except", "array_overlap"]}],
         "gen": [gen("acc11", "acc11", ACC_OPS + ["to_string", "to_pretty_string", "lazy", "comparable_all"], rp="{1, 2, 3}"),
                 gen("edit11", "edit11", EDIT_OPS + ["array_distinct"], rp="{0, 1, 3}"),
-                gen("pairs11", "pairs11", ["compare", "contains", "concat", "array_intersection", "array_except", "array_overlap"], rp="{0, 2, 3}")],
+                gen("pairs11", "pairs11", ["compare", "contains", "concat", "array_intersection", "array_except", "array_overlap"], rp="{0, 2, 3}"),
+                {"name": "pathtext", "module": "GenPath", "constants": {"Family": '"text"', "MaxSteps": "0"}}],
         "bounds": "26-document universe (every scalar class incl. multi-byte/control/quote strings, numeric strings, -0.0, 2^53+1; nested containers) x every argument of the accessor/editor families x text spacings {compact, spaced, CRLF+full \\u escapes}; two-document functions over all pairs of a 22-document universe x all representation vectors over {binary, two text spacings}",
         "assumptions": [RN_ASSUMPTION],
     },
